@@ -11,7 +11,9 @@ import (
 )
 
 func bufAnchors(c *Ctx) *bufRoles {
+	setUnitExclude()
 	r := resolveBufRoles(c.P)
+	setUnitExclude(r.growFn, r.availFn, r.sizeFn)
 	if len(r.problems) > 0 {
 		o := c.Obl("R0", "packetio.Buffer", "anchors of the packet buffer are resolved", 1)
 		for _, pr := range r.problems {
@@ -58,7 +60,7 @@ func (r *bufRoles) closedFact(f fact, want bool) bool {
 
 // storesOfWrite: instructions of Write that modify contents or occupancy.
 func (r *bufRoles) contentStores(f *ssa.Function) []ssa.Instruction {
-	return findInstrs(f, func(in ssa.Instruction) bool {
+	return findU(f, func(in ssa.Instruction) bool {
 		return r.isRingWrite(in) || r.isStoreTo(in, r.tail) || r.isStoreTo(in, r.head) || r.isStoreTo(in, r.count) || r.isStoreTo(in, r.data)
 	})
 }
@@ -93,7 +95,7 @@ func runC06(c *Ctx) {
 	}
 	// and the bytes are copied into the ring by copy(dst<-data, src<-packet)
 	copied := false
-	for _, in := range findInstrs(W, func(in ssa.Instruction) bool { return isCall(in, "builtin.copy") }) {
+	for _, in := range findU(W, func(in ssa.Instruction) bool { return isCall(in, "builtin.copy") }) {
 		args := in.(ssa.CallInstruction).Common().Args
 		if derivesFrom(args[1], func(v ssa.Value) bool { return v == ssa.Value(packet) }, false) && r.isRingWrite(in) {
 			copied = true
@@ -113,13 +115,13 @@ func runC06(c *Ctx) {
 		if !hasFact(st, func(f fact) bool { return r.closedFact(f, false) }) {
 			o.Fail(st.Pos(), "store in Write is not on the !closed edge: a write after Close changes the contents")
 		}
-		if !la.holds(st, r.recv(W)+"."+r.mutex, true) {
+		if !la.holdsOwner(st, r.T, true) {
 			o.Fail(st.Pos(), "store in Write is not under the mutex")
 		}
 	}
 	// calls that modify the buffer (grow) are under the same guards
 	if r.growFn != nil {
-		for _, in := range findInstrs(W, func(in ssa.Instruction) bool { c, ok := in.(*ssa.Call); return ok && c.Call.StaticCallee() == r.growFn }) {
+		for _, in := range findU(W, func(in ssa.Instruction) bool { c, ok := in.(*ssa.Call); return ok && c.Call.StaticCallee() == r.growFn }) {
 			o.Site(in.Pos(), "call of %s", r.growFn.Name())
 			if !hasFact(in, func(f fact) bool { return sizeGuardFact(f, packet) }) || !hasFact(in, func(f fact) bool { return r.closedFact(f, false) }) {
 				o.Fail(in.Pos(), "the ring is re-allocated on a path that has not passed the size and closed tests")
@@ -129,11 +131,11 @@ func runC06(c *Ctx) {
 
 	// R3 refusal paths are store-free
 	o = c.Obl("R3", fname(W), "no error return of Write is reachable after a store to contents/occupancy (a refused Write changes nothing); growth only re-linearises", 4)
-	for _, st := range findInstrs(W, func(in ssa.Instruction) bool {
+	for _, st := range findU(W, func(in ssa.Instruction) bool {
 		return r.isRingWrite(in) || r.isStoreTo(in, r.tail) || r.isStoreTo(in, r.count) || r.isStoreTo(in, r.head)
 	}) {
 		o.Site(st.Pos(), "%s", st.String())
-		for in := range reach(posAfter(st), nil) {
+		for in := range reachU(posAfter(st), nil) {
 			if isErrorReturn(in) {
 				o.Fail(in.Pos(), "an error return of Write is reachable after the store at %s: the refusal is not side-effect free", p.Pos(st.Pos()))
 				break
@@ -162,7 +164,7 @@ func runC06(c *Ctx) {
 		o.Undecide("decoded length not found in Read")
 	} else {
 		adv := 0
-		for _, in := range findInstrs(R, func(in ssa.Instruction) bool { return r.isStoreTo(in, r.head) }) {
+		for _, in := range findU(R, func(in ssa.Instruction) bool { return r.isStoreTo(in, r.head) }) {
 			st := in.(*ssa.Store)
 			b, ok := st.Val.(*ssa.BinOp)
 			if !ok || b.Op != token.ADD || !r.isLoad(b.X, r.head) {
@@ -177,7 +179,7 @@ func runC06(c *Ctx) {
 				o.Fail(in.Pos(), "head is advanced by %s, not by the decoded packet length: a short read would leave the rest of the packet to be parsed as the next header", b.Y.Name())
 			}
 			for _, l := range hdrLoads {
-				if !dominates(l, in) {
+				if !domU(l, in) {
 					o.Fail(in.Pos(), "head is advanced before both header bytes were read")
 				}
 			}
@@ -186,7 +188,7 @@ func runC06(c *Ctx) {
 			o.Fail(R.Pos(), "expected exactly one advance of head by the packet length in Read, found %d", adv)
 		}
 		nShort := 0
-		for _, in := range findInstrs(R, func(in ssa.Instruction) bool { return returnsGlobalErr(in, "io", "ErrShortBuffer") }) {
+		for _, in := range findU(R, func(in ssa.Instruction) bool { return returnsGlobalErr(in, "io", "ErrShortBuffer") }) {
 			nShort++
 			ret := in.(*ssa.Return)
 			o.Site(in.Pos(), "return ErrShortBuffer")
@@ -201,7 +203,7 @@ func runC06(c *Ctx) {
 		if nShort == 0 {
 			o.Fail(R.Pos(), "Read never reports ErrShortBuffer")
 		}
-		for _, in := range findInstrs(R, isSuccessReturn) {
+		for _, in := range findU(R, isSuccessReturn) {
 			ret := in.(*ssa.Return)
 			if !hasFact(in, func(f fact) bool {
 				cm, ok := normCmp(f.Cond, f.Val)
@@ -212,7 +214,7 @@ func runC06(c *Ctx) {
 			o.Site(in.Pos(), "success return")
 		}
 		// copied = min(count, len(packet))
-		for _, in := range findInstrs(R, func(in ssa.Instruction) bool { return isSuccessReturn(in) || returnsGlobalErr(in, "io", "ErrShortBuffer") }) {
+		for _, in := range findU(R, func(in ssa.Instruction) bool { return isSuccessReturn(in) || returnsGlobalErr(in, "io", "ErrShortBuffer") }) {
 			n := in.(*ssa.Return).Results[0]
 			if ph, ok := n.(*ssa.Phi); ok {
 				okMin := false
@@ -234,7 +236,7 @@ func runC06(c *Ctx) {
 	for _, f := range []*ssa.Function{W, R} {
 		o = c.Obl("R6", fname(f), "after every advance of head/tail the index is compared (freshly loaded) with len(data) and wrapped before it is used or the lock is released", 3)
 		for _, field := range []string{r.head, r.tail} {
-			for _, in := range findInstrs(f, func(in ssa.Instruction) bool { return r.isStoreTo(in, field) }) {
+			for _, in := range findU(f, func(in ssa.Instruction) bool { return r.isStoreTo(in, field) }) {
 				st := in.(*ssa.Store)
 				b, ok := st.Val.(*ssa.BinOp)
 				if !ok || b.Op != token.ADD || !r.isLoad(b.X, field) {
@@ -262,7 +264,7 @@ func runC06(c *Ctx) {
 						return false
 					}
 					ld, ok := fl.(ssa.Instruction)
-					if !ok || !dominates(in, ld) {
+					if !ok || !domU(in, ld) {
 						return false
 					}
 					// the wrapping branch must store the field
@@ -293,7 +295,7 @@ func runC06(c *Ctx) {
 					}
 					return false
 				}
-				if ok, bad := mustPass(posAfter(in), isUse, isWrapTest); !ok {
+				if ok, bad := mustPassU(posAfter(in), isUse, isWrapTest); !ok {
 					o.Fail(in.Pos(), "%s is advanced here and then used at %s without a wrap test on the updated value (stale or missing comparison with len(data))", field, p.Pos(bad.Pos()))
 				}
 			}
@@ -308,7 +310,7 @@ func runC06(c *Ctx) {
 		if pkgOf(f) != "packetio" {
 			continue
 		}
-		for _, in := range findInstrs(f, func(in ssa.Instruction) bool { return r.isStoreTo(in, r.count) }) {
+		for _, in := range findU(f, func(in ssa.Instruction) bool { return r.isStoreTo(in, r.count) }) {
 			o.Site(in.Pos(), "store to count in %s", fname(f))
 			if f == W && isInc(in) || f == R && isDec(in) {
 				continue
@@ -319,21 +321,21 @@ func runC06(c *Ctx) {
 			o.Fail(in.Pos(), "count is modified in %s other than by Write's ++ / Read's --", fname(f))
 		}
 	}
-	if ok, bad := mustPass(entryPos(W), isSuccessReturn, isInc); !ok {
+	if ok, bad := mustPassU(entryPos(W), isSuccessReturn, isInc); !ok {
 		o.Fail(bad.Pos(), "a success return of Write is reachable without count++")
 	}
-	if m, inf := maxEvents(entryPos(W), isReturn, func(in ssa.Instruction) int { return b2i(isInc(in)) }); m > 1 || inf {
+	if m, inf := maxEventsU(entryPos(W), isReturn, func(in ssa.Instruction) int { return b2i(isInc(in)) }); m > 1 || inf {
 		o.Fail(W.Pos(), "count can be incremented more than once per Write")
 	}
 	// Read: per loop iteration (from lock to unlock) at most one decrement; packet returns must pass one
 	pktRet := func(in ssa.Instruction) bool {
 		return (isSuccessReturn(in) || returnsGlobalErr(in, "io", "ErrShortBuffer"))
 	}
-	if ok, bad := mustPass(entryPos(R), pktRet, isDec); !ok {
+	if ok, bad := mustPassU(entryPos(R), pktRet, isDec); !ok {
 		o.Fail(bad.Pos(), "Read can return a packet without count--")
 	}
-	for _, d := range findInstrs(R, isDec) {
-		for in := range reach(posAfter(d), pktRet) {
+	for _, d := range findU(R, isDec) {
+		for in := range reachU(posAfter(d), pktRet) {
 			if isDec(in) && in != d {
 				o.Fail(in.Pos(), "count can be decremented twice for one returned packet")
 			}
@@ -348,7 +350,7 @@ func runC06(c *Ctx) {
 
 	// R9 Read copies out of the ring into the caller's slice, never the other way
 	o = c.Obl("R9", fname(R), "Read only copies from the ring into the caller's slice and never stores the caller's slice", 1)
-	for _, in := range findInstrs(R, func(in ssa.Instruction) bool { return isCall(in, "builtin.copy") }) {
+	for _, in := range findU(R, func(in ssa.Instruction) bool { return isCall(in, "builtin.copy") }) {
 		o.Site(in.Pos(), "%s", in.String())
 		if r.isRingWrite(in) {
 			o.Fail(in.Pos(), "Read writes into the ring")
@@ -380,7 +382,7 @@ func isLenOf(v ssa.Value, m func(ssa.Value) bool) bool {
 // headerWriteShifts: the shift amounts of the bytes stored directly (not via copy) into the ring, in dominance order.
 func (r *bufRoles) headerWriteShifts(W *ssa.Function, packet *ssa.Parameter) ([]int64, token.Pos) {
 	var stores []*ssa.Store
-	for _, in := range findInstrs(W, func(in ssa.Instruction) bool {
+	for _, in := range findU(W, func(in ssa.Instruction) bool {
 		st, ok := in.(*ssa.Store)
 		if !ok {
 			return false
@@ -393,7 +395,7 @@ func (r *bufRoles) headerWriteShifts(W *ssa.Function, packet *ssa.Parameter) ([]
 	// order by dominance
 	for i := 0; i < len(stores); i++ {
 		for j := i + 1; j < len(stores); j++ {
-			if dominates(stores[j], stores[i]) {
+			if domU(stores[j], stores[i]) {
 				stores[i], stores[j] = stores[j], stores[i]
 			}
 		}
@@ -421,7 +423,7 @@ func (r *bufRoles) headerWriteShifts(W *ssa.Function, packet *ssa.Parameter) ([]
 // headerReadShifts: loads of single ring bytes at head in Read (dominance order) and the shifts with which they enter the decoded length.
 func (r *bufRoles) headerReadShifts(R *ssa.Function) (shifts []int64, count ssa.Value, loads []ssa.Instruction) {
 	var lds []*ssa.UnOp
-	for _, in := range findInstrs(R, func(in ssa.Instruction) bool {
+	for _, in := range findU(R, func(in ssa.Instruction) bool {
 		u, ok := in.(*ssa.UnOp)
 		if !ok || u.Op != token.MUL {
 			return false
@@ -433,7 +435,7 @@ func (r *bufRoles) headerReadShifts(R *ssa.Function) (shifts []int64, count ssa.
 	}
 	for i := 0; i < len(lds); i++ {
 		for j := i + 1; j < len(lds); j++ {
-			if dominates(lds[j], lds[i]) {
+			if domU(lds[j], lds[i]) {
 				lds[i], lds[j] = lds[j], lds[i]
 			}
 		}
@@ -515,7 +517,7 @@ func c06Grow(c *Ctx, r *bufRoles) {
 		return
 	}
 	var mk *ssa.MakeSlice
-	for _, in := range findInstrs(g, func(in ssa.Instruction) bool { _, ok := in.(*ssa.MakeSlice); return ok }) {
+	for _, in := range findU(g, func(in ssa.Instruction) bool { _, ok := in.(*ssa.MakeSlice); return ok }) {
 		mk = in.(*ssa.MakeSlice)
 	}
 	if mk == nil {
@@ -524,7 +526,7 @@ func c06Grow(c *Ctx, r *bufRoles) {
 	}
 	o.Site(mk.Pos(), "new array allocated")
 	var copies []*ssa.Call
-	for _, in := range findInstrs(g, func(in ssa.Instruction) bool { return isCall(in, "builtin.copy") }) {
+	for _, in := range findU(g, func(in ssa.Instruction) bool { return isCall(in, "builtin.copy") }) {
 		call := in.(*ssa.Call)
 		copies = append(copies, call)
 		o.Site(in.Pos(), "%s", in.String())
@@ -536,10 +538,10 @@ func c06Grow(c *Ctx, r *bufRoles) {
 		}
 	}
 	// any direct ring write in grow is forbidden
-	for _, in := range findInstrs(g, func(in ssa.Instruction) bool { return r.isRingWrite(in) }) {
+	for _, in := range findU(g, func(in ssa.Instruction) bool { return r.isRingWrite(in) }) {
 		o.Fail(in.Pos(), "growth writes into the old ring")
 	}
-	paths, ok := enumPaths(g, 300)
+	paths, ok := enumPathsB(g, 300)
 	if !ok {
 		o.Undecide("growth helper has a loop or too many paths")
 		return
@@ -637,7 +639,7 @@ func resolvePhi(v ssa.Value, pr func(*ssa.Phi) ssa.Value) ssa.Value {
 
 // c0607Available: the free-space test and the occupancy helper as exact linear forms.
 func c0607Available(c *Ctx, r *bufRoles) {
-	o := c.Obl("R8", "packetio.Buffer.available", "free-space test: with A = head-tail (+len(data) if A <= 0) a packet of size s fits iff s+2+1 <= A (one byte always stays free, so head==tail means empty)", 4)
+	o := c.Obl("R8", "packetio.Buffer.available", "free-space test: with A = head-tail (+len(data) if A <= 0) a packet of size s fits iff s+2+1 <= A (one byte always stays free, so head==tail means empty)", 2)
 	a := r.availFn
 	if a == nil {
 		o.Undecide("free-space helper not found")
@@ -645,7 +647,7 @@ func c0607Available(c *Ctx, r *bufRoles) {
 		recv, sz := a.Params[0].Name(), a.Params[1].Name()
 		A := linSym(recv + "." + r.head).add(linSym(recv+"."+r.tail), -1)
 		L := linSym("len(" + recv + "." + r.data + ")")
-		paths, ok := enumPaths(a, 50)
+		paths, ok := enumPathsB(a, 50)
 		if !ok {
 			o.Undecide("free-space helper has a loop")
 		}
@@ -698,7 +700,7 @@ func c0607Available(c *Ctx, r *bufRoles) {
 	recv := s.Params[0].Name()
 	D := linSym(recv + "." + r.tail).add(linSym(recv+"."+r.head), -1)
 	L := linSym("len(" + recv + "." + r.data + ")")
-	paths, ok := enumPaths(s, 50)
+	paths, ok := enumPathsB(s, 50)
 	if !ok {
 		o.Undecide("occupancy helper has a loop")
 	}
@@ -744,7 +746,7 @@ func runC07(c *Ctx) {
 	o := c.Obl("R2", fname(W), "Write refuses with ErrFull exactly when (limitCount>0 and count+1>limitCount) or (limitSize>0 and size+2+len>limitSize); otherwise it proceeds to store", 1)
 	// region start: the false edge of the closed test
 	var start *ssa.BasicBlock
-	for _, in := range findInstrs(W, func(in ssa.Instruction) bool { _, ok := in.(*ssa.If); return ok }) {
+	for _, in := range findU(W, func(in ssa.Instruction) bool { _, ok := in.(*ssa.If); return ok }) {
 		iff := in.(*ssa.If)
 		if r.isLoad(iff.Cond, r.closed) {
 			start = iff.Block().Succs[1]
@@ -801,7 +803,7 @@ func runC07(c *Ctx) {
 			o.Fail(W.Pos(), "limit test differs from the rule: %s", cex)
 		}
 		// the test runs under the lock
-		for _, in := range findInstrs(W, full) {
+		for _, in := range findU(W, full) {
 			o.Site(in.Pos(), "return ErrFull")
 		}
 	}
@@ -817,13 +819,13 @@ func runC07(c *Ctx) {
 	}
 	// R3 = C06.R3 (refusal side-effect free) re-evaluated here for ErrFull specifically
 	o = c.Obl("R3", fname(W), "a refused Write (ErrFull) performs no store to contents, Count or Size before refusing", 1)
-	for _, in := range findInstrs(W, func(in ssa.Instruction) bool { return returnsGlobalErr(in, "packetio", "ErrFull") || isErrorReturn(in) }) {
+	for _, in := range findU(W, func(in ssa.Instruction) bool { return returnsGlobalErr(in, "packetio", "ErrFull") || isErrorReturn(in) }) {
 		o.Site(in.Pos(), "error return")
 	}
-	for _, st := range findInstrs(W, func(in ssa.Instruction) bool {
+	for _, st := range findU(W, func(in ssa.Instruction) bool {
 		return r.isRingWrite(in) || r.isStoreTo(in, r.tail) || r.isStoreTo(in, r.count) || r.isStoreTo(in, r.head)
 	}) {
-		for in := range reach(posAfter(st), nil) {
+		for in := range reachU(posAfter(st), nil) {
 			if isErrorReturn(in) {
 				o.Fail(in.Pos(), "an error return is reachable after the store at %s", p.Pos(st.Pos()))
 				break
@@ -838,7 +840,7 @@ func runC07(c *Ctx) {
 		o.Site(v.Pos(), "Count returns %s", accessPath(v))
 		if !r.isLoad(v, r.count) {
 			o.Fail(v.Pos(), "Count does not return the packet count")
-		} else if !la.holds(v.(ssa.Instruction), r.recv(r.Count)+"."+r.mutex, false) {
+		} else if !la.holdsOwner(v.(ssa.Instruction), r.T, false) {
 			o.Fail(v.Pos(), "Count reads count without the mutex")
 		}
 	}
@@ -847,7 +849,7 @@ func runC07(c *Ctx) {
 		o.Site(v.Pos(), "Size returns %s", v.String())
 		if !ok || call.Call.StaticCallee() != r.sizeFn {
 			o.Fail(v.Pos(), "Size does not return the occupancy helper's result")
-		} else if !la.holds(call, r.recv(r.Size)+"."+r.mutex, false) {
+		} else if !la.holdsOwner(call, r.T, false) {
 			o.Fail(v.Pos(), "Size computes the occupancy without the mutex")
 		}
 	}
@@ -856,14 +858,14 @@ func runC07(c *Ctx) {
 		field string
 	}{{r.SetLimitCount, r.limitCount}, {r.SetLimitSize, r.limitSize}} {
 		n := 0
-		for _, in := range findInstrs(fs.f, func(in ssa.Instruction) bool { return r.isStoreTo(in, fs.field) }) {
+		for _, in := range findU(fs.f, func(in ssa.Instruction) bool { return r.isStoreTo(in, fs.field) }) {
 			n++
 			st := in.(*ssa.Store)
 			o.Site(in.Pos(), "%s stores %s", fname(fs.f), st.Val.Name())
 			if st.Val != ssa.Value(fs.f.Params[1]) {
 				o.Fail(in.Pos(), "%s does not store its argument", fname(fs.f))
 			}
-			if !la.holds(in, r.recv(fs.f)+"."+r.mutex, true) {
+			if !la.holdsOwner(in, r.T, true) {
 				o.Fail(in.Pos(), "%s stores the limit without the mutex", fname(fs.f))
 			}
 		}
@@ -876,7 +878,7 @@ func runC07(c *Ctx) {
 		if pkgOf(f) != "packetio" || f == r.SetLimitCount || f == r.SetLimitSize {
 			continue
 		}
-		for _, in := range findInstrs(f, func(in ssa.Instruction) bool { return r.isStoreTo(in, r.limitCount) || r.isStoreTo(in, r.limitSize) }) {
+		for _, in := range findU(f, func(in ssa.Instruction) bool { return r.isStoreTo(in, r.limitCount) || r.isStoreTo(in, r.limitSize) }) {
 			if !isFreshBase(in.(*ssa.Store).Addr.(*ssa.FieldAddr).X) {
 				o.Fail(in.Pos(), "a limit is modified in %s", fname(f))
 			}
@@ -888,20 +890,20 @@ func runC07(c *Ctx) {
 	o = c.Obl("R5", r.T+"."+r.count, "count++ once per accepted Write, count-- once per returned packet (pairing; see C06.R7)", 2)
 	isInc := func(in ssa.Instruction) bool { d, ok := r.fieldDelta(in, r.count); return ok && d == 1 }
 	isDec := func(in ssa.Instruction) bool { d, ok := r.fieldDelta(in, r.count); return ok && d == -1 }
-	for _, in := range findInstrs(W, isInc) {
+	for _, in := range findU(W, isInc) {
 		o.Site(in.Pos(), "count++")
 	}
-	for _, in := range findInstrs(r.Read, isDec) {
+	for _, in := range findU(r.Read, isDec) {
 		o.Site(in.Pos(), "count--")
 	}
-	if ok, bad := mustPass(entryPos(W), isSuccessReturn, isInc); !ok {
+	if ok, bad := mustPassU(entryPos(W), isSuccessReturn, isInc); !ok {
 		o.Fail(bad.Pos(), "a success return of Write is reachable without count++")
 	}
-	if m, inf := maxEvents(entryPos(W), isReturn, func(in ssa.Instruction) int { return b2i(isInc(in)) }); m > 1 || inf {
+	if m, inf := maxEventsU(entryPos(W), isReturn, func(in ssa.Instruction) int { return b2i(isInc(in)) }); m > 1 || inf {
 		o.Fail(W.Pos(), "count can be incremented more than once per Write")
 	}
 	pktRet := func(in ssa.Instruction) bool { return isSuccessReturn(in) || returnsGlobalErr(in, "io", "ErrShortBuffer") }
-	if ok, bad := mustPass(entryPos(r.Read), pktRet, isDec); !ok {
+	if ok, bad := mustPassU(entryPos(r.Read), pktRet, isDec); !ok {
 		o.Fail(bad.Pos(), "Read can return a packet without count--")
 	}
 	// growth cap: R6 — maximum size constants
